@@ -228,7 +228,9 @@ def gen_sentence(r):
 
 
 def norm_text(s):
-    return "".join(" " if ch.isspace() else ch for ch in s if ch != "\x00")
+    # the lexer maps every white-space character to ' ', drops NUL, and rewrites the decimal comma of a
+    # digits,digits token to '.' (also inside tokens that end up skipped): compare modulo these
+    return "".join(" " if ch.isspace() else ("." if ch == "," else ch) for ch in s if ch != "\x00")
 
 
 def tokens_in_order(s, toks):
@@ -236,6 +238,7 @@ def tokens_in_order(s, toks):
     t = norm_text(s)
     pos = 0
     for tok in toks:
+        tok = tok.replace(",", ".")
         k = t.find(tok, pos)
         if k < 0:
             return False
